@@ -343,3 +343,7 @@ __import__("props_c04").register(_sys.modules[__name__])
 __import__("props_c12").register(_sys.modules[__name__])
 __import__("props_c17").register(_sys.modules[__name__])
 __import__("props_c02").register(_sys.modules[__name__])
+import props_c09
+import props_c10
+props_c09.register(_sys.modules[__name__])
+props_c10.register(_sys.modules[__name__])
